@@ -47,7 +47,7 @@ Proof.
   unfold ffres_lat, ffres_lon, ffres_alt, ffres_VN, ffres_VE, ffres_VD, ffres_roll, ffres_pitch, ffres_heading,
     ffres_gyro, ffres_accel, principal_radii_rn, principal_radii_rp.
   autounfold with ffres_db principal_radii_db.
-  repeat split; reflexivity.
+  repeat split; first [reflexivity | ring].
 Qed.
 End Compensation.
 
@@ -599,23 +599,21 @@ Lemma col_row0 (m1 m2 n1 n2 : nat) (A : 'M[F]_(m1, n2)) (B : 'M[F]_(m2, n2)) :
   col_mx (row_mx (0 : 'M[F]_(m1, n1)) A) (row_mx 0 B) = row_mx 0 (col_mx A B).
 Proof. by rewrite -block_mxEv block_mxEh col_mx0. Qed.
 
-Lemma gen_icov_eq : icov_ret0 Pg Pa T Ppva = init_cov T Ppva Pg Pa.
-Proof. by rewrite /icov_ret0 /icov_P /init_cov row_mx0 col_row0 !block_mxEv. Qed.
+Lemma gen_icov_eq : icov_ret0 T Ppva Pg Pa = init_cov T Ppva Pg Pa.
+Proof. by rewrite /icov_ret0 /init_cov ?row_mx0 ?col_row0 !block_mxEv. Qed.
 
-Lemma gen_epm_F_eq : epm_ret0 Fg Fa Fii Fig Fia Hg Ha = asm_F Fii Fig Fia Hg Ha Fg Fa.
-Proof. by rewrite /epm_ret0 /epm_F /asm_F col_row0 !block_mxEv. Qed.
-
-Lemma gen_epm_G_eq : epm_G Gg Jg Ga Ja Fig Fia = asm_G Fig Fia Jg Ja Gg Ga.
-Proof. by rewrite /epm_G /asm_G row_mx0. Qed.
+Lemma gen_epm_F_eq : epm_ret0 Fii Fig Fia Hg Ha Fg Fa = asm_F Fii Fig Fia Hg Ha Fg Fa.
+Proof. by rewrite /epm_ret0 /asm_F ?row_mx0 ?col_row0 !block_mxEv. Qed.
 
 Lemma gen_epm_Q_eq :
-  epm_ret1 Gg Jg v_g q_g Ga Ja v_a q_a Fig Fia = asm_Q Fig Fia Jg Ja Gg Ga v_g v_a q_g q_a.
-Proof. by rewrite /epm_ret1 /asm_Q /asm_q gen_epm_G_eq. Qed.
+  epm_ret1 Fig Fia Jg Ja Gg Ga v_g v_a q_g q_a = asm_Q Fig Fia Jg Ja Gg Ga v_g v_a q_g q_a.
+Proof. by rewrite /epm_ret1 /asm_Q /asm_G /asm_q ?row_mx0. Qed.
 
+(* only the generated OUTPUT definitions are referred to: no name or shape of an intermediate of the code *)
 Theorem generated_assembly :
-  [/\ icov_ret0 Pg Pa T Ppva = init_cov T Ppva Pg Pa,
-      epm_ret0 Fg Fa Fii Fig Fia Hg Ha = asm_F Fii Fig Fia Hg Ha Fg Fa
-    & epm_ret1 Gg Jg v_g q_g Ga Ja v_a q_a Fig Fia = asm_Q Fig Fia Jg Ja Gg Ga v_g v_a q_g q_a].
+  [/\ icov_ret0 T Ppva Pg Pa = init_cov T Ppva Pg Pa,
+      epm_ret0 Fii Fig Fia Hg Ha Fg Fa = asm_F Fii Fig Fia Hg Ha Fg Fa
+    & epm_ret1 Fig Fia Jg Ja Gg Ga v_g v_a q_g q_a = asm_Q Fig Fia Jg Ja Gg Ga v_g v_a q_g q_a].
 Proof. by split; [exact: gen_icov_eq | exact: gen_epm_F_eq | exact: gen_epm_Q_eq]. Qed.
 
 (* Q = G diag(q^2) G^T written out: the inertial block receives the gyro / accelerometer OUTPUT noises
